@@ -51,3 +51,11 @@ package peerstore
 //@   loop 3 invariant clock: s.clk.now >= entry(s.clk.now)
 //@   loop 3 invariant same_size: len(g.peerMap) == len(g.peerList)
 //@   loop 3 invariant row: (cap(g.peerList) == 0 || allocated(g.peerList)) && 0 <= len(g.peerList) && len(g.peerList) <= cap(g.peerList)
+
+// Interface contract of peerstore.Store.GetPeers as used by the tracker server (assumed for the
+// Redis store; LocalStore.GetPeers proves the size bound).
+//@ func Store.GetPeers(st, h, n)
+//@   trusted
+//@   ensures bounded: len(result0) <= max(n, 0) && 0 <= len(result0) && len(result0) <= cap(result0)
+//@   ensures elems: forall j int :: 0 <= j && j < len(result0) ==> result0[j] != nil && allocated(result0[j])
+//@   ensures row: cap(result0) == 0 || fresh(result0)
